@@ -96,8 +96,143 @@ func evalConst(info *types.Info, e ast.Expr, env Env) (constant.Value, bool) {
 				return constant.BinaryOp(l, x.Op, r), true
 			}
 		}
+	case *ast.IndexExpr:
+		// T[k] for a package-level table of constants that is new with respect to the pinned tree and written nowhere else
+		// (registered by the normalisation pass, tables.go): the entry, or the zero value when k is not a key
+		if v, ok := objOf(info, x.X).(*types.Var); ok {
+			if tbl := constTableOf(v); tbl != nil {
+				k, known := evalConst(info, x.Index, env)
+				if !known {
+					return nil, false
+				}
+				for i, key := range tbl.keys {
+					if key.Kind() == k.Kind() && constant.Compare(key, token.EQL, k) {
+						return tbl.vals[i], true
+					}
+				}
+				return tbl.zero, tbl.zero != nil
+			}
+		}
+	case *ast.SelectorExpr:
+		// v.f of a local struct built by one composite literal
+		if g := fgOfExpr(x); g != nil {
+			if def, _ := g.FieldDef(x); def != nil {
+				return evalConst(info, def, env)
+			}
+			// v.f with v := T[k] for a new, immutable table of struct literals: the field of the entry k selects (zero when k
+			// is not a key or the entry does not mention the field)
+			if fv, _ := fieldOf(info, x); fv != nil {
+				def := g.LocalDef(objOf(info, x.X))
+				if def == nil {
+					// the lookup may stand outside the piece of the function this graph covers (recorded by the normalisation pass)
+					def = tableLookupDefOf(objOf(info, x.X))
+				}
+				if def != nil {
+					if ie, isIE := unparen(def).(*ast.IndexExpr); isIE {
+						if tv, isV := objOf(info, ie.X).(*types.Var); isV {
+							if st := structTableOf(tv); st != nil {
+								k, known := evalConst(info, ie.Index, env)
+								if !known {
+									return nil, false
+								}
+								var entry *ast.CompositeLit
+								for i, key := range st.keys {
+									if key.Kind() == k.Kind() && constant.Compare(key, token.EQL, k) {
+										entry = st.vals[i]
+									}
+								}
+								if entry != nil {
+									for _, el := range entry.Elts {
+										kv, isKV := el.(*ast.KeyValueExpr)
+										if !isKV {
+											return nil, false
+										}
+										if id, isID := kv.Key.(*ast.Ident); isID && info.Uses[id] == types.Object(fv) {
+											return evalConst(info, kv.Value, env)
+										}
+									}
+								}
+								if z := zeroLit(info, fv.Type(), x.Pos()); z != nil {
+									return evalConst(info, z, env)
+								}
+							}
+						}
+					}
+				}
+			}
+		}
 	}
 	return nil, false
+}
+
+type structTable struct {
+	keys []constant.Value
+	vals []*ast.CompositeLit
+}
+
+var structTables = map[*types.Var]*structTable{}
+
+// tableLookupDefs: local variable → the T[k] it is defined by (its only definition), for new immutable tables
+var tableLookupDefs = map[types.Object]ast.Expr{}
+
+func tableLookupDefOf(o types.Object) ast.Expr {
+	if o == nil {
+		return nil
+	}
+	constTablesMu.Lock()
+	defer constTablesMu.Unlock()
+	return tableLookupDefs[o]
+}
+
+func structTableOf(v *types.Var) *structTable {
+	constTablesMu.Lock()
+	defer constTablesMu.Unlock()
+	return structTables[v]
+}
+
+// constTables: see tables.go
+type constTable struct {
+	keys, vals []constant.Value
+	zero       constant.Value
+}
+
+var (
+	constTablesMu sync.Mutex
+	constTables   = map[*types.Var]*constTable{}
+	// exprOwner: function-graph lookup for selector expressions that FieldDef may resolve (filled lazily per graph)
+	fgByBody sync.Map // *ast.BlockStmt → *FG
+)
+
+func constTableOf(v *types.Var) *constTable {
+	constTablesMu.Lock()
+	defer constTablesMu.Unlock()
+	return constTables[v]
+}
+
+// fgOfExpr finds the flow graph whose function body contains e (graphs register themselves when they build their local
+// definitions).
+func fgOfExpr(e ast.Expr) *FG {
+	var found *FG
+	fgByBody.Range(func(k, v any) bool {
+		g := v.(*FG)
+		if containsNoLitOrIn(k.(*ast.BlockStmt), e) {
+			found = g
+			return false
+		}
+		return true
+	})
+	return found
+}
+
+func containsNoLitOrIn(root ast.Node, target ast.Node) bool {
+	found := false
+	ast.Inspect(root, func(n ast.Node) bool {
+		if n == target {
+			found = true
+		}
+		return !found
+	})
+	return found
 }
 
 // edgeOpen: can edge e be taken under env? (unknown ⇒ yes)
@@ -528,6 +663,7 @@ func (g *FG) conjUpdates(o types.Object, at *GNode) []ast.Expr {
 
 func (g *FG) buildLocalDefs() {
 	if g.localDefs == nil {
+		fgByBody.Store(g.F.Body(), g)
 		g.localDefs = map[types.Object]ast.Expr{}
 		cnt := map[types.Object]int{}
 		body := g.F.Body()
@@ -823,7 +959,11 @@ func (g *FG) FieldDef(e ast.Expr) (ast.Expr, ast.Node) {
 		}
 	}
 	if val == nil {
-		return nil, nil
+		// a field the literal does not mention holds its zero value
+		val = zeroLit(g.Info, fv.Type(), cl.Pos())
+		if val == nil {
+			return nil, nil
+		}
 	}
 	// the statement holding the definition
 	var stmt ast.Node
@@ -838,4 +978,28 @@ func (g *FG) FieldDef(e ast.Expr) (ast.Expr, ast.Node) {
 		return stmt == nil
 	})
 	return val, stmt
+}
+
+// zeroLit: a literal expression for the zero value of a basic type (with its constant recorded), nil for other types.
+func zeroLit(info *types.Info, t types.Type, pos token.Pos) ast.Expr {
+	b, ok := t.Underlying().(*types.Basic)
+	if !ok {
+		return nil
+	}
+	switch {
+	case b.Info()&types.IsBoolean != 0:
+		id := &ast.Ident{NamePos: pos, Name: "false"}
+		info.Uses[id] = types.Universe.Lookup("false")
+		info.Types[id] = types.TypeAndValue{Type: t, Value: constant.MakeBool(false)}
+		return id
+	case b.Info()&types.IsInteger != 0:
+		l := &ast.BasicLit{ValuePos: pos, Kind: token.INT, Value: "0"}
+		info.Types[l] = types.TypeAndValue{Type: t, Value: constant.MakeInt64(0)}
+		return l
+	case b.Info()&types.IsString != 0:
+		l := &ast.BasicLit{ValuePos: pos, Kind: token.STRING, Value: `""`}
+		info.Types[l] = types.TypeAndValue{Type: t, Value: constant.MakeString("")}
+		return l
+	}
+	return nil
 }
